@@ -1,6 +1,6 @@
 # C03 ... : arithmetic on the real lib/date-core.c (same TU 'date-core')
 U = 'unsigned int'
-ARITH = ['C03', 'C04', 'C05', 'C11', 'C15', 'C16']
+ARITH = ['C03']
 SV = ['cadical']
 YMD_IN = dict(ins=[('uint32_t', 'in_u'), ('int', 'in_n')], setup='dt_ymd_t d; d.u = in_u;',
               sweep={'in_u': '((1598 + RND % 2500) << 10) | ((RND % 14) << 6) | (RND % 33)', 'in_n': '(int)(RND % 40000) - 20000'})
